@@ -25,6 +25,15 @@ TESTS = "/repo/tests"
 
 BOUNDARY = [0, 1, 0x7F, 0x80, 0xFC, 0xFD, 0xFFFF, 0x10000, 2**32 - 1, 2**32, 2**64 - 1]
 BOUNDARY_BYTES = [0x00, 0x01, 0x7F, 0x80, 0xFC, 0xFD, 0xFE, 0xFF]
+# lengths of decimal digit runs around CPython's int()/str() conversion limit (4300 digits) and far above it:
+# `int("9" * 4301)` is a bare ValueError unless the parser bounds the field first
+DIGIT_RUNS = [4299, 4300, 4301, 10**4, 10**5]
+
+
+def digit_run(rng):
+    n = rng.choice(DIGIT_RUNS)
+    d = rng.choice("19")
+    return rng.choice(["", "", "-", "0", "+"]) + d * n
 
 
 # ----------------------------------------------------------------------------- specs
@@ -174,8 +183,10 @@ def mutate_bytes(rng, b: bytes, others=()):
     r = rng.random()
     if n == 0:
         return bytes(rng.getrandbits(8) for _ in range(rng.choice([0, 1, 2, 9])))
-    if r < 0.40:
+    if r < 0.36:
         return rng.choice(field_edits(b, rng.randrange(n)))
+    if r < 0.40:
+        return b[rng.randrange(n + 1):]                        # a prefix dropped
     if r < 0.55:
         return b[:rng.randrange(n + 1)]                       # truncation at any offset
     if r < 0.63:
@@ -227,6 +238,15 @@ def mutate_text(rng, s: str, others=()):
     r = rng.random()
     if n == 0:
         return rng.choice(EDGE_STRINGS)
+    if r < 0.05:
+        # a decimal field far beyond int()'s limit: in place of a digit run, or inserted anywhere
+        import re
+        m = list(re.finditer(r"\d+", s))
+        if m and rng.random() < 0.75:
+            k = rng.choice(m)
+            return s[:k.start()] + digit_run(rng) + s[k.end():]
+        i = rng.randrange(n + 1)
+        return s[:i] + digit_run(rng) + s[i:]
     if r < 0.22:
         i = rng.randrange(n)
         return s[:i] + rng.choice(EDGE_CHARS) + s[i + 1:]
@@ -269,6 +289,8 @@ def mutate_text(rng, s: str, others=()):
 
 def random_text(rng):
     r = rng.random()
+    if r < 0.06:
+        return digit_run(rng)
     if r < 0.4:
         return rng.choice(EDGE_STRINGS)
     n = rng.choice([1, 2, 5, 10, 34, 62, 90, 111, 300])
@@ -281,7 +303,7 @@ def random_text(rng):
 
 # ----------------------------------------------------------------------------- JSON mutations
 def wrong_values(rng):
-    return [None, True, False, 0, 1, -1, 2**31, 2**32, 2**63, 2**64, -(2**63) - 1, 10**40, 1.5, -0.0, float("inf"), float("nan"), "", " ",
+    return ["9" * 4301, "1" * 10**4, None, True, False, 0, 1, -1, 2**31, 2**32, 2**63, 2**64, -(2**63) - 1, 10**40, 1.5, -0.0, float("inf"), float("nan"), "", " ",
             "zz", "00", "0x00", "ff" * 33, "é", "\ud800", "a" * 5000, [], [[]], [None], [0], ["00"], [1, "a"], {}, {"a": 1}, {"": None},
             {"deep": ["list", 10000, 0]}, {"deep": ["dict", 10000, 0]}, {"deep": ["list", 900, "00"]}]
 
@@ -400,7 +422,7 @@ def psbt_vectors():
             for x in v:
                 walk(x)
     for f in ("bip174_test_vectors.json", "bip370_test_vectors.json", "bip371_test_vectors.json",
-              "bip373_test_vectors.json", "btclib_test_vectors.json"):
+              "bip373_test_vectors.json", "bip375_test_vectors.json", "btclib_test_vectors.json"):
         try:
             walk(load_json("psbt", "_data", f))
         except OSError:
